@@ -129,6 +129,10 @@ def cases(tier):
         os_ = ["1"] + [f"ico_{n}" for n in (2, 5, 12, 13, 42, 43)] + [f"cube3D_{n}" for n in (3, 8, 9, 26, 27)] + \
               [f"randomS_{n}" for n in (2, 6, 17)]
     out = [{"b": b, "o": o, "t": t, "radii_nm": tv} for b in bs for o in os_ for t, tv in RADIALS]
+    # float-step range() text format: 30 radii 0.10, 0.11, ... 0.39 nm (the last arange value lies just below the stop)
+    rr = [str(F(10 + i, 100)) for i in range(30)]
+    for b, o in (("1", "ico_3"), ("cube4D_2", "1"), ("randomQ_3", "cube3D_2")):
+        out.append({"b": b, "o": o, "t": "range(0.1, 0.4, 0.01)", "radii_nm": rr})
     # one large grid whose position-cell count crosses 2**15 and whose row count crosses 2**16 (index dtype overflow)
     big = [str(F(1, 10) + F(209, 2090) * i) for i in range(210)]
     out.append({"b": "cube4D_2", "o": "ico_162", "t": "linspace(0.1, 21, 210)",
